@@ -1335,9 +1335,61 @@ func validatorEstablishesRule(p *engine.Prog, r *engine.Report, rule string, pai
 	r.Check(n > 0, rule, "pairs|an executor relies on admission (control)", "", fmt.Sprint(n), "no executor dereferences a lookup unchecked any more: the pairing is vacuous")
 }
 
+// C12-R14: a position in a peer-delivered list of block bundles is bounded by that list's length:
+// every non-constant index into a []types.BlockBundle on the fork path is a range position, len-c,
+// tested against the length on the way, or computed behind a test that makes the length agree with
+// the count it is derived from (a refusal when `len(list) != last-first+1`).
+func bundleIndexBoundedRule(p *engine.Prog, r *engine.Report, rule string) {
+	n := 0
+	for _, pk := range []string{"consensus", "blockchain", "protocol"} {
+		for _, f := range funcsOfPkg(p, pk) {
+			if f.Blocks == nil || f.Parent() != nil || isTestish(p.Pos(f.Pos())) {
+				continue
+			}
+			for _, u := range countedIndexUnbounded(f) {
+				if !strings.Contains(u.at.X.Type().String(), "types.BlockBundle") {
+					continue
+				}
+				n++
+				r.Fn(engine.FuncName(f))
+				sl := renderVal(u.at.X, 0)
+				agreed := false
+				for _, d := range f.Blocks {
+					if len(d.Instrs) == 0 || !d.Dominates(u.at.Block()) || d == u.at.Block() {
+						continue
+					}
+					iff, ok := d.Instrs[len(d.Instrs)-1].(*ssa.If)
+					if !ok {
+						continue
+					}
+					cond, _ := stripNot(iff.Cond)
+					bo, ok := cond.(*ssa.BinOp)
+					if !ok || (bo.Op != token.EQL && bo.Op != token.NEQ) {
+						continue
+					}
+					for v := range engine.BackSlice(bo, engine.SliceOpts{ThroughLoads: true, MaxNodes: 60}) {
+						if c, ok := v.(*ssa.Call); ok {
+							if b, isB := c.Call.Value.(*ssa.Builtin); isB && b.Name() == "len" && renderVal(c.Call.Args[0], 0) == sl {
+								if _, isConst := bo.Y.(*ssa.Const); !isConst {
+									agreed = true
+								}
+							}
+						}
+					}
+				}
+				r.Check(agreed, rule, uniq(r, engine.RelName(f)+"|a counted position in the peer's bundle list is bounded by its length"), p.InstrPos(u.at), "behind a length agreement test", "the index is computed by counting (block heights), and nothing on the way compares it — or the count it follows — with the length of the list the peer delivered: a block range with a gap in its heights runs the index past the list and the goroutine that resolves forks panics (no recover)")
+			}
+		}
+	}
+	if n == 0 {
+		r.OK(rule, "scan|no counted index into a bundle list", "", "range / constant / len-relative positions only")
+	}
+}
+
 func init() {
 	extend("C12", func(p *engine.Prog, r *engine.Report) {
-		r.Explanation += " (R13) where an executor dereferences an empty-able lookup unchecked (VmImpl.terminate: GetCodeHash; applyTxOnState: the attachment parsers), the matching validator refuses the transaction on every path on which that lookup is empty."
+		bundleIndexBoundedRule(p, r, "C12-R14")
+		r.Explanation += " (R13) where an executor dereferences an empty-able lookup unchecked (VmImpl.terminate: GetCodeHash; applyTxOnState: the attachment parsers), the matching validator refuses the transaction on every path on which that lookup is empty; (R14) a non-constant index into a peer-delivered []BlockBundle is bounded by the list's length (range, len-relative, tested, or behind a length agreement test)."
 		validatorEstablishesRule(p, r, "C12-R13", [][5]string{
 			{"vm", "VmImpl.terminate", "blockchain/validation", "validateTerminateContractTx", "GetCodeHash"},
 			{"blockchain", "Blockchain.applyTxOnState", "blockchain/validation", "validateBurnTx", "ParseBurnAttachment"},
@@ -1360,10 +1412,116 @@ func init() {
 			for _, s := range loopSharedAddrStored(f) {
 				r.Note("XMK", uniq(r, engine.RelName(f)+"|loop-shared-addr"), p.InstrPos(s.store), s.alloc.Comment)
 			}
+			for _, u := range countedIndexUnbounded(f) {
+				r.Note("XMK", uniq(r, engine.RelName(f)+"|unbounded-index"), p.InstrPos(u.at), u.why)
+			}
 			_, bads := unguardedNilableUses(f, mayReturnNil)
 			for _, b := range bads {
 				r.Note("XMK", uniq(r, engine.RelName(f)+"|nilable "+engine.RelName(b.call.Call.StaticCallee())), p.InstrPos(b.use), "")
 			}
 		}
 	})
+}
+
+// ---------------------------------------------------------------------------------------------
+// countedIndexUnbounded: an index into a slice that is neither a constant, nor len(x)-c, nor tested
+// against len(x) on the way (a dominating `idx < len(x)` / range loop) — the position is computed by
+// counting something else (heights, nonces) and runs past the slice when the two disagree.
+type unboundedIdx struct {
+	at  *ssa.IndexAddr
+	why string
+}
+
+func countedIndexUnbounded(fn *ssa.Function) []unboundedIdx {
+	var out []unboundedIdx
+	lenOf := func(v ssa.Value) (string, bool) {
+		c, ok := engine.Unwrap(v).(*ssa.Call)
+		if !ok {
+			return "", false
+		}
+		if b, isB := c.Call.Value.(*ssa.Builtin); isB && b.Name() == "len" {
+			return renderVal(c.Call.Args[0], 0), true
+		}
+		return "", false
+	}
+	for _, b := range fn.Blocks {
+		for _, ins := range b.Instrs {
+			ia, ok := ins.(*ssa.IndexAddr)
+			if !ok {
+				continue
+			}
+			if _, isSlice := ia.X.Type().Underlying().(*types.Slice); !isSlice {
+				continue
+			}
+			if _, isC := ia.Index.(*ssa.Const); isC {
+				continue
+			}
+			sl := renderVal(ia.X, 0)
+			// len(x) - c
+			if bo, isB := engine.Unwrap(ia.Index).(*ssa.BinOp); isB && bo.Op == token.SUB {
+				if s, ok := lenOf(bo.X); ok && s == sl {
+					continue
+				}
+			}
+			bounded := false
+			for _, d := range fn.Blocks {
+				if len(d.Instrs) == 0 || !d.Dominates(b) {
+					continue
+				}
+				iff, ok := d.Instrs[len(d.Instrs)-1].(*ssa.If)
+				if !ok {
+					continue
+				}
+				cond, neg := stripNot(iff.Cond)
+				bo, ok := cond.(*ssa.BinOp)
+				if !ok {
+					continue
+				}
+				var idx, ln ssa.Value
+				op := bo.Op
+				if s, ok := lenOf(bo.Y); ok && s == sl {
+					idx, ln = bo.X, bo.Y
+				} else if s, ok := lenOf(bo.X); ok && s == sl {
+					idx, ln = bo.Y, bo.X
+					switch op {
+					case token.LSS:
+						op = token.GTR
+					case token.GTR:
+						op = token.LSS
+					case token.LEQ:
+						op = token.GEQ
+					case token.GEQ:
+						op = token.LEQ
+					}
+				} else {
+					continue
+				}
+				_ = ln
+				if engine.Unwrap(idx) != engine.Unwrap(ia.Index) && renderVal(idx, 0) != renderVal(ia.Index, 0) {
+					continue
+				}
+				// which edge keeps idx < len ?
+				var want int
+				switch op {
+				case token.LSS:
+					want = 0
+				case token.GEQ:
+					want = 1
+				default:
+					continue
+				}
+				if neg {
+					want = 1 - want
+				}
+				s := d.Succs[want]
+				if s == b || s.Dominates(b) {
+					bounded = true
+				}
+			}
+			if !bounded {
+				out = append(out, unboundedIdx{ia, sl + "[" + renderVal(ia.Index, 0) + "]"})
+			}
+		}
+	}
+	return out
 }
